@@ -1,5 +1,6 @@
 import BadgerModel.Driver.AuxEng
 import BadgerModel.Driver.Loop
+import BadgerModel.Driver.CStatus
 /-! `bmd_aux <engine>`: line-protocol driver (see CONVENTIONS.md). Engines: `manifest`
 (stateful), `bloom` (stateless), `trie` (stateful). -/
 open Badger.Driver
@@ -12,4 +13,5 @@ def main (args : List String) : IO UInt32 := do
   | ["bloom"] => statelessLoop stdin stdout bloomStep; return 0
   | ["trie"] => statefulLoop stdin stdout trieStep {}; return 0
   | ["subscribe"] => statefulLoop stdin stdout subscribeStep {}; return 0
-  | _ => IO.eprintln "usage: bmd_aux <manifest|bloom|trie|subscribe>"; return 2
+  | ["cstatus"] => statefulLoop stdin stdout cstatusStep { cs := Badger.CS.CStatus.init 7 }; return 0
+  | _ => IO.eprintln "usage: bmd_aux <manifest|bloom|trie|subscribe|cstatus>"; return 2
